@@ -123,13 +123,22 @@ fn handle_rpc(node: &Node, stats: &Stats, body: &[u8]) -> RpcOut {
     let id = req["id"].clone();
     let method = req["method"].as_str().unwrap_or("").to_string();
     let params: Vec<Value> = req["params"].as_array().cloned().unwrap_or_default();
-    *stats.lock().unwrap().entry(method.clone()).or_insert(0) += 1;
+    {
+        // scripted outage of one RPC method: the connection is dropped without an answer (the node stays up for the rest)
+        let mut st = stats.lock().unwrap();
+        if st.get(&format!("fault:{method}")).copied().unwrap_or(0) > 0 {
+            *st.entry("dropped".to_string()).or_insert(0) += 1;
+            return RpcOut::Drop;
+        }
+        *st.entry(method.clone()).or_insert(0) += 1;
+    }
     let ok = |v: Value| RpcOut::Json(200, json!({"result": v, "error": null, "id": id}).to_string());
     let err = |code: i32, msg: &str| {
         RpcOut::Json(if code == -32601 { 404 } else { 500 }, json!({"result": null, "error": {"code": code, "message": msg}, "id": id}).to_string())
     };
     let mut n = node.lock().unwrap();
     if !n.up {
+        *stats.lock().unwrap().entry("dropped".to_string()).or_insert(0) += 1;
         return RpcOut::Drop;
     }
     let hash_param = |i: usize| params.get(i).and_then(|v| v.as_str()).and_then(|s| s.parse::<BlockHash>().ok());
@@ -654,9 +663,42 @@ struct Exec {
     sync_s: u64,
     boot_s: u64,
     max_sync_ms: u128,
+    /// the tower has been seen failing to reach the node and the fault is still on: requests are sent without waiting
+    /// for the tower to catch up with the node's tip
+    outage: bool,
+    /// number of dropped node RPCs when the current fault was armed
+    drops_base: usize,
 }
 
 impl Exec {
+    fn drops(&self) -> usize {
+        self.server.stats.lock().unwrap().get("dropped").copied().unwrap_or(0)
+    }
+
+    fn faults_on(&self) -> bool {
+        let up = self.node.lock().unwrap().up;
+        !up || self.server.stats.lock().unwrap().iter().any(|(k, v)| k.starts_with("fault:") && *v > 0)
+    }
+
+    /// Waits (bounded) until the tower has made a node RPC that was dropped, gives it a moment to act on the failure, and
+    /// records the obligation: from now on the tower knows the node is unreachable.
+    fn await_outage(&mut self) {
+        if self.dead || self.daemon.is_none() {
+            return;
+        }
+        let t0 = Instant::now();
+        while self.drops() <= self.drops_base {
+            if t0.elapsed() > Duration::from_secs(20) || self.daemon_exited().is_some() {
+                self.emit_plain(json!({"act": "Note", "what": "no_outage_seen"}));
+                return;
+            }
+            std::thread::sleep(Duration::from_millis(10));
+        }
+        std::thread::sleep(Duration::from_millis(400));
+        self.outage = true;
+        self.emit_plain(json!({"act": "Flag", "reachable": false, "why": "a node RPC of the tower was dropped"}));
+    }
+
     // ---- symbols
 
     fn tx(&mut self, s: i64) -> Transaction {
@@ -719,7 +761,9 @@ impl Exec {
         post["index"] = json!([]);
         post["reorged"] = json!([]);
         post["memo"] = json!([]);
-        post["reachable"] = json!(true);
+        // the flag is not observable from outside the process either: what the specification holds after the last Flag /
+        // Chain event (the obligations are the replies: 'service unavailable' while it is down, normal answers afterwards)
+        post["reachable"] = json!(!self.outage);
         post
     }
 
@@ -1155,11 +1199,11 @@ impl Exec {
         match r {
             Ok(reply) => {
                 fields["reply"] = reply;
-                self.emit(fields, "", None, true);
+                { let w = !self.outage; self.emit(fields, "", None, w); }
             }
             Err(cls) => {
                 fields["reply"] = json!({"code": "abort"});
-                self.emit(fields, &cls, None, true);
+                { let w = !self.outage; self.emit(fields, &cls, None, w); }
                 if self.daemon_exited().is_some() {
                     self.emit_plain(json!({"act": "Died", "signal": 0}));
                     self.daemon = None;
@@ -1303,8 +1347,11 @@ impl Exec {
                 if self.daemon.is_none() {
                     return;
                 }
-                // requests issued while the tower is processing blocks are not part of this tier
-                self.sync();
+                // requests issued while the tower is processing blocks are not part of this tier (during a recorded outage
+                // the tower cannot catch up: the request is sent as it is)
+                if !self.outage {
+                    self.sync();
+                }
                 if self.dead {
                     return;
                 }
@@ -1398,8 +1445,26 @@ impl Exec {
                 self.node.lock().unwrap().mempool.retain(|t| t.compute_txid() != id);
             }
             "node" => {
-                self.node.lock().unwrap().up = op["up"].as_bool().unwrap();
+                let up = op["up"].as_bool().unwrap();
+                self.node.lock().unwrap().up = up;
+                if !up {
+                    self.drops_base = self.drops();
+                } else if !self.faults_on() {
+                    self.outage = false;
+                }
             }
+            "rpc_fault" => {
+                let on = op["on"].as_bool().unwrap();
+                let key = format!("fault:{}", op["method"].as_str().unwrap());
+                if on {
+                    self.drops_base = self.drops();
+                }
+                self.server.stats.lock().unwrap().insert(key, if on { 1 } else { 0 });
+                if !self.faults_on() {
+                    self.outage = false;
+                }
+            }
+            "await_outage" => self.await_outage(),
             other => die(&format!("op {other} is not part of the end-to-end tier")),
         }
     }
@@ -1468,6 +1533,8 @@ fn main() {
             aborts: 0,
             sync_s: env_secs("VERIF_E2E_SYNC_S", 60),
             boot_s: env_secs("VERIF_E2E_BOOT_S", 120),
+            outage: false,
+            drops_base: 0,
             max_sync_ms: 0,
         };
         let _ = std::fs::remove_file(&e.log_path);
